@@ -29,7 +29,7 @@ META = {
     "note": "Trusted: rustc nightly, custom target (wasm32-unknown-unknown spec with os=wasi, no std), stub allocator/panic handler, "
             "wit-component 0.257. HashMap map type needs std and is only type-checked natively. Exclusions mirror crates/test/src/rust.rs.",
 }
-FLOORS = {"quick": (24, 20), "thorough": (300, 200)}
+FLOORS = {"quick": (24, 20), "thorough": (250, 200)}
 
 VARIANTS = [
     ("default", []),
@@ -266,7 +266,7 @@ def run(tier, seed, replay):
                 # the `temporaries` world fails the same way under every option set: one variant is enough
                 jobs = [j for j in jobs if not (j["name"] == "temporaries" and j["variant"] != "default")]
             else:
-                jobs, stats = compz.plan("rust", tier, seed, work, VARIANTS, 300, PROFILES)
+                jobs, stats = compz.plan("rust", tier, seed, work, VARIANTS, 160, PROFILES)
         counts = {"ok": 0, "violation": 0, "inconclusive": 0}
         per_variant = {}
         wasm_built = 0
@@ -315,7 +315,7 @@ def dbg_ctx(work):
 def dbg_plan(tier, seed, work):
     if tier == "quick":
         return compz.plan("rust", tier, seed, work, VARIANTS, 20, PROFILES, quick_corpus=(1, 4))
-    return compz.plan("rust", tier, seed, work, VARIANTS, 300, PROFILES)
+    return compz.plan("rust", tier, seed, work, VARIANTS, 160, PROFILES)
 
 
 def dbg_run(job, work, ctx):
